@@ -175,8 +175,14 @@ def classify(item):
         x, y = f[2], f[3]
         nh = int(x[12:14], 16)
         off = 14 + 2 * nh + 2
-        if off + 2 <= len(x) and 32 < int(x[off:off + 2], 16) < 96:
-            return "rtc-partial-prefix-length-lost"
+        # walk the NLRI list of the input: the finding is a membership prefix of 33..95 bits anywhere in it
+        while off + 2 <= len(x):
+            bits = int(x[off:off + 2], 16)
+            if 32 < bits < 96:
+                return "rtc-partial-prefix-length-lost"
+            if bits > 96:
+                break
+            off += 2 + 2 * ((bits + 7) // 8)
     return "%s-type-%s" % (kind, t)
 
 
